@@ -6,7 +6,7 @@ CONSTANTS
   Formats = {"pilosa"}
   MaxBatch = 2
   RowSizes = {0}
-  Alphabet = {"Add","Remove","AddN","RemoveN","ImportSet","ImportClear","Optimize","Reencode","Contains","Count","Slice","Max","Min","Views","CountRange"}
+  Alphabet = {"Add","Remove","AddN","RemoveN","ImportSet","ImportClear","Optimize","Reencode","Hold","Contains","Count","Slice","Max","Min","Views","CountRange"}
 INIT Init
 NEXT Next
 INVARIANT TypeOK
